@@ -262,6 +262,18 @@ func rsValidate(res *hx.Result, d, p, size int) {
 		res.Seen(fmt.Sprintf("rsv:%d:%d:%d:%v", d, p, size, vec), true)
 		res.Count("rs.verify")
 		res.AddCase(fmt.Sprintf("RsVerifyCase %s %s %d %s %s", hx.CoqNat(d), hx.CoqNat(p), L, hx.CoqList(xs), hx.CoqBool(ok)), in)
+		// Reconstruct from a set that holds an altered shard is garbage-in: the contract (rs_R2) and the repaired
+		// code (checksum pass first) only ever rebuild from genuine shards, and what the garbage looks like is a
+		// GF(256) coincidence (at perShard 1-2 it can even equal the genuine shard). Not compared.
+		hasNil, hasAltered := false, false
+		for _, s := range vec {
+			hasNil = hasNil || s == 0
+			hasAltered = hasAltered || s == 2
+		}
+		if hasNil && hasAltered {
+			res.Count("rs.reconstruct.garbage-in-skipped")
+			return
+		}
 		sh := build()
 		rerr := enc.Reconstruct(sh)
 		res.Count("rs.reconstruct")
